@@ -126,6 +126,12 @@ def store_ops(model, payload):
                             shutil.copy(os.path.join(blobs, donor + ".meta"), os.path.join(blobs, "k.meta"))
                         elif lo.startswith("complete_"):
                             st.store_blob("k", dict(values)[lo[len("complete_"):]], None)
+                    # presence is the blob file itself (the last thing store_blob makes visible), whatever else is there
+                    complete = any(lo.startswith("complete_") for lo in combo)
+                    if st.has_blob("k") != complete:
+                        return {"reproduced": True, "detail": "leftovers %s (no complete blob for 'k'): has_blob('k') -> %r" % (list(combo), st.has_blob("k")), "inputs": {"leftovers": list(combo)}}
+                    if not complete and st.fetch_blob("k") is not None:
+                        return {"reproduced": True, "detail": "leftovers %s (no complete blob for 'k'): fetch_blob('k') -> %r" % (list(combo), st.fetch_blob("k")), "inputs": {"leftovers": list(combo)}}
                     tag = "leftovers %s, then store_blob('k', <%s>)" % (list(combo), vname)
                     try:
                         st.store_blob("k", v, None)
